@@ -227,6 +227,11 @@ class Output:
                         a = next((x for x in n.find_all('a', 'internal-link')), None)
                         if a is not None:
                             yield pname, 'sidebar', self._target(pname, a), 'private' in cl, n
+                        else:
+                            # an item without a link (its target is not linkable): identified by the text it shows
+                            item = next((c for c in n.children if isinstance(c, Node) and 'itemName' in c.classes()), None)
+                            if item is not None:
+                                yield pname, 'sidebar', 'text:' + item.text_content().strip(), 'private' in cl, n
                     elif in_tree:
                         # own link of this item: first internal link not inside a nested list
                         a = None
